@@ -4,6 +4,7 @@
 -/
 import Proofs.Lemmas.Cycles
 import Proofs.Lemmas.CyclesSlices
+import Proofs.Lemmas.ContainerOpts
 
 namespace C13
 open Cycles
@@ -135,6 +136,50 @@ theorem container_flag_agrees_getCycleVector (g : GoodCfg) (step : Rat) (ph : Li
     rw [hmap]
     exact paint_labelRuns_sample (isGood g) (runsBy (wrapAt step) ph) 0 0 p i (by simpa using hp)
 
+/-- **The container's quality flag does not depend on the container's options.**  `Container.initOpts` is the
+    constructor `Cycles(IP, phase_step, phase_edge, compute_timings, mode, use_cache)` with every option it
+    has.  For every `mode` ∈ {cycle, augmented}, with or without `compute_timings`, cache on or off, the stored
+    `is_good` metric is the SAME vector: `containerIsGood` — `is_good` on every wrap-delimited cycle of the
+    all-cycles partition, i.e. the documented criteria for the cycle (`isGood_spec`), agreeing with good-cycle
+    detection (`container_flag_agrees`) — never the criteria of the augmented segment (seeded change C13-5). -/
+theorem container_flag_independent_of_options (g : GoodCfg) (pstep thr : Rat) (cache : Bool)
+    (mode : Container.Mode) (timings : Bool) (ph : List Rat) :
+    Container.sget (Container.initOpts g pstep thr cache mode timings ph).1.metrics Container.isGoodName =
+      some ((containerIsGood g pstep ph).map fun b => some (if b then 1 else 0)) ∧
+    Container.isGoodFlags (Container.initOpts g pstep thr cache mode timings ph).1 = some (containerIsGood g pstep ph) ∧
+    ∀ (cache' : Bool) (mode' : Container.Mode) (timings' : Bool),
+      Container.isGoodFlags (Container.initOpts g pstep thr cache' mode' timings' ph).1 =
+        Container.isGoodFlags (Container.initOpts g pstep thr cache mode timings ph).1 := by
+  refine ⟨ContainerOpts.initOpts_isGood g pstep thr cache mode timings ph,
+    ContainerOpts.initOpts_flags g pstep thr cache mode timings ph, fun cache' mode' timings' => ?_⟩
+  rw [ContainerOpts.initOpts_flags, ContainerOpts.initOpts_flags]
+
+/-- … and through the constructor the flag is the documented criteria, cycle by cycle: with at least one wrap,
+    flag i of a container built with ANY options is set iff the i-th wrap-delimited segment is non-empty,
+    strictly increasing, starts within the edge tolerance above 0 and ends within it below 2π. -/
+theorem container_flag_is_criteria (g : GoodCfg) (pstep thr : Rat) (cache : Bool) (mode : Container.Mode)
+    (timings : Bool) (ph : List Rat) (hw : 2 ≤ (runsBy (wrapAt pstep) ph).length) :
+    ∃ flags, Container.isGoodFlags (Container.initOpts g pstep thr cache mode timings ph).1 = some flags ∧
+      flags.length = (runsBy (wrapAt pstep) ph).length ∧
+      ∀ (i : Nat) (seg : List Rat), (runsBy (wrapAt pstep) ph)[i]? = some seg →
+        (flags[i]? = some true ↔
+          ∃ a z, seg.head? = some a ∧ seg.getLast? = some z ∧ seg.Pairwise (· < ·) ∧
+            0 ≤ a ∧ a ≤ g.edge ∧ g.endlo ≤ z ∧ z ≤ g.twopi) := by
+  have hflags : containerIsGood g pstep ph = (runsBy (wrapAt pstep) ph).map (isGood g) := by
+    unfold containerIsGood cvSegs
+    have hne : ¬ (runsBy (wrapAt pstep) ph).length ≤ 1 := by omega
+    simp only [hne, ite_false]
+    have hall : ∀ s ∈ labelRuns (fun _ => true) 0 (runsBy (wrapAt pstep) ph), s.2.isSome = true :=
+      fun s hs => (labelRuns_label_iff _ _ _ s hs).mpr rfl
+    rw [List.filter_eq_self.mpr hall]
+    have := congrArg (List.map (isGood g)) (labelRuns_runs (fun _ => true) 0 (runsBy (wrapAt pstep) ph))
+    rw [List.map_map] at this
+    exact this
+  refine ⟨_, ContainerOpts.initOpts_flags g pstep thr cache mode timings ph, by simp [hflags], ?_⟩
+  intro i seg hseg
+  rw [hflags, List.getElem?_map, hseg, ← isGood_spec]
+  simp
+
 /-! Non-vacuity -/
 example : isGood { edge := 1/4, twopi := 6, endlo := 23/4 } [1/8, 3, 47/8] = true := by
   rw [isGood_spec]; exact ⟨1/8, 47/8, rfl, rfl, by decide +kernel, by decide +kernel, by decide +kernel,
@@ -146,4 +191,10 @@ example : (getCycleVector { edge := 1/4, twopi := 6, endlo := 23/4 } 4 false [1/
     (List.replicate 8 true))[3]? = some ((1 : Nat) : Int) := by decide +kernel
 example : getCycleVector { edge := 1/4, twopi := 6, endlo := 23/4 } 4 true [1/8, 3, 47/8, 1/8, 5, 1/8, 3, 47/8]
     (List.replicate 8 true) = [0, 0, 0, -1, -1, 1, 1, 1] := by decide +kernel
+-- the round-3 witness: three full cycles, container built with mode='augmented', timings on, cache off: all three flags set
+-- (the augmented criteria would reject the first cycle)
+example : Container.isGoodFlags (Container.initOpts { edge := 1/4, twopi := 6, endlo := 23/4 } 4 (9/2) false .augmented true
+    [1/8, 3, 47/8, 1/8, 3, 47/8, 1/8, 3, 47/8]).1 = some [true, true, true] := by
+  rw [(container_flag_independent_of_options _ _ _ _ _ _ _).2.1]; decide +kernel
+example : 2 ≤ (runsBy (wrapAt 4) [1/8, 3, 47/8, 1/8, 3, 47/8, 1/8, 3, 47/8]).length := by decide +kernel
 end C13
